@@ -9,6 +9,7 @@ mod c03;
 mod c04;
 mod c05;
 mod c06;
+mod c07;
 mod c08;
 mod c09;
 mod c10;
@@ -162,6 +163,7 @@ fn main() {
         "C04" => c04::run(&ctx, &mut rep),
         "C05" => c05::run(&ctx, &mut rep),
         "C06" => c06::run(&ctx, &mut rep),
+        "C07" => c07::run(&ctx, &mut rep),
         "C08" => c08::run(&ctx, &mut rep),
         "C09" => c09::run(&ctx, &mut rep),
         "C10" => c10::run(&ctx, &mut rep),
@@ -195,6 +197,7 @@ fn replay_one(prop: &str, sub: &str, case: &serde_json::Value) -> Result<(), Str
         "C04" => c04::replay(sub, case),
         "C05" => c05::replay(sub, case),
         "C06" => c06::replay(sub, case),
+        "C07" => c07::replay(sub, case),
         "C08" => c08::replay(sub, case),
         "C09" => c09::replay(sub, case),
         "C10" => c10::replay(sub, case),
